@@ -205,12 +205,18 @@ class SqliteDLQMixin:
         conn = self._get_connection()
 
         # Find messages that have exceeded max_attempts
+        # poll_one() stops delivering at the QUEUE's max_attempts while rows carry
+        # their own limit (Message.max_attempts for in-transaction pushes, the
+        # schema default for replayed rows). Sweep at whichever is reached first,
+        # otherwise a row can sit between the two limits for ever: never polled,
+        # never dead-lettered.
         result = conn.execute(
             f"""
             SELECT id, message_type, attempts
             FROM {self.table_name}
-            WHERE attempts >= max_attempts
+            WHERE attempts >= MIN(max_attempts, :queue_max_attempts)
             """,
+            {"queue_max_attempts": getattr(self, "max_attempts", 10)},
         )
         rows = result.fetchall()
 
